@@ -200,6 +200,48 @@ def s_slots(rng, n=None):
     return lines
 
 
+def s_capacity_script(rng, order):
+    """replay / reorder script at the saved-transaction capacity: STUN_AGENT_MAX_SAVED_IDS + 2 requests are
+    finished (the last two must be refused), every request is answered authentically in `order`
+    (forward | reverse | shuffled), every answer is replayed, freed slots are reused"""
+    CAP = 200
+    compat = rng.randrange(4)
+    flags = rng.choice([S.F_SHORT, S.F_SHORT | S.F_FPR, 0])
+    pw = b"capacity-key"
+    lines = [agent_line(compat, flags)]
+    reqs = []
+    for i in range(CAP + 2):
+        txid = S.rand_txid(rng, True)
+        method = rng.choice([1, 3, 9])
+        lines.append(f"stun ireq 64 {method} {txid.hex()}")
+        lines.append(f"stun fin {kx(pw)}")
+        reqs.append((txid, method))
+    idx = list(range(len(reqs)))
+    if order == "reverse":
+        idx.reverse()
+    elif order == "shuffled":
+        rng.shuffle(idx)
+
+    def answer(i):
+        txid, method = reqs[i]
+        return S.authentic(rng, compat, flags, 2, method, txid, None, None, None, pw, [])
+    for k, i in enumerate(idx):
+        resp = answer(i)
+        lines.append(f"stun val {S.hx(resp)} none")
+        if k % 3 == 0:
+            lines.append(f"stun val {S.hx(resp)} none")            # immediate replay
+        if k % 50 == 49:                                           # a freed slot is reused
+            txid = S.rand_txid(rng, True)
+            lines.append(f"stun ireq 64 1 {txid.hex()}")
+            lines.append(f"stun fin {kx(pw)}")
+            reqs.append((txid, 1))
+    for i in rng.sample(range(len(reqs)), 12):                     # late replays / late first answers
+        lines.append(f"stun val {S.hx(answer(i))} none")
+    lines.append(f"stun forget {reqs[-1][0].hex()}")
+    lines.append(f"stun val {S.hx(answer(len(reqs) - 1))} none")
+    return lines
+
+
 def sessions_for(tier, rng):
     sessions, kinds = [], {}
 
@@ -215,6 +257,8 @@ def sessions_for(tier, rng):
         add("slots", s_slots(rng))
     for n in ((198, 200, 202) if quick else (1, 50, 199, 200, 201, 202, 202, 202)):
         add("slots-capacity", s_slots(rng, n))
+    for order in ("forward", "reverse", "shuffled") * (1 if quick else 6):
+        add("replay-reorder-capacity+2:" + order, s_capacity_script(rng, order))
     # 4 compat x usage-flag sets
     flagsets = range(0, 512, 3) if quick else range(512)
     for compat in range(4):
